@@ -135,6 +135,25 @@ example :
                               .installApp { name := "web-browser", port := 80, proto := 1 } true [] .good 2]
     portIsOpen n 80 1 = true ∧ openPortsV n = [] := by decide
 
+/-- **Routers and firewalls as hosts of software**: a frame is handed to a router's session manager only if it is addressed
+to the router and is ICMP or aimed at a port with a RUNNING owner (`Router.check_send_frame_to_session_manager`). -/
+theorem C13_router_frame_only_open (n : Node) (h : Hdr) (toRouter : Bool) (ha : n.routerAccepts h toRouter = true) :
+    toRouter = true ∧ (h = .icmp ∨ ∃ p k u s, h.dstPort = some p ∧ (k, u) ∈ n.portMap ∧ view n u = some s ∧
+      n.isRunning u = true ∧ (p = s.port ∨ p ∈ s.listen)) := by
+  unfold Node.routerAccepts at ha
+  simp only [Bool.and_eq_true, Bool.or_eq_true, beq_iff_eq] at ha
+  refine ⟨ha.1, ?_⟩
+  rcases ha.2 with h1 | h2
+  · exact Or.inl h1
+  · right
+    cases hd : h.dstPort with
+    | none => simp [hd] at h2
+    | some p =>
+      simp only [hd, List.contains_iff_mem] at h2
+      have hp : p ∈ openPortsV n := by rw [C13_open_ports_views_eq]; exact h2
+      obtain ⟨k, u, s, a, b, c, d⟩ := C13_open_port_only_running n p hp
+      exact ⟨p, k, u, s, rfl, a, b, c, d⟩
+
 /-! ## 3. the receive path -/
 
 theorem dget_mem {κ ν} [DecidableEq κ] (l : List (κ × ν)) (k : κ) (v : ν) (h : dget k l = some v) : (k, v) ∈ l := by
@@ -853,7 +872,7 @@ the running-guard first, the type check, "a reply is not a request" in both serv
 the reply written into the packet that was handed in (`generate_reply` returns `self`), `request_time` without a guard of its
 own and called by `apply_timestep` only while RUNNING, `add_connection` / `terminate_connection` as `Conn.add` /
 `Conn.terminate`, `send` / `receive` of IOSoftware behind `_can_perform_action`, `HostNode.receive_frame` as
-`Node.frameAccepted`.  Any edit of one of these methods changes the regenerated list and this obligation no longer checks. -/
+`Node.frameAccepted`, `Router.check_send_frame_to_session_manager` as `Node.routerAccepts`.  Any edit of one of these methods changes the regenerated list and this obligation no longer checks. -/
 theorem C13_gen_method_bodies :
     Gen.SoftwareRecv.methodBodies = [
   ("DNSServer.receive", ["if not super().receive(payload=payload, session_id=session_id, **kwargs) { return False }", "if not isinstance(payload, DNSPacket) { return False }", "if payload.dns_reply is not None { return False }", "if payload.dns_request is not None { payload = payload.generate_reply(self.dns_lookup(payload.dns_request.domain_name_request)); self.send(payload, session_id); return payload.dns_reply.domain_name_ip_address is not None }", "return False"]),
@@ -872,7 +891,8 @@ theorem C13_gen_method_bodies :
   ("IOSoftware.terminate_connection", ["if self.connections.get(connection_id) { connection_dict = self._connections.pop(connection_id); if send_disconnect { self.software_manager.send_payload_to_session_manager(payload={'type': 'disconnect', 'connection_id': connection_id}, session_id=connection_dict['session_id']); return True } }", "return False"]),
   ("IOSoftware.send", ["if not self._can_perform_action() { return False }", "return self.software_manager.send_payload_to_session_manager(payload=payload, dest_ip_address=dest_ip_address, dest_port=dest_port, ip_protocol=ip_protocol, session_id=session_id)"]),
   ("IOSoftware.receive", ["return self._can_perform_action()"]),
-  ("HostNode.receive_frame", ["super().receive_frame(frame, from_network_interface)", "dst_port = None", "if frame.tcp { dst_port = frame.tcp.dst_port } else { if frame.udp { dst_port = frame.udp.dst_port } }", "can_accept_nmap = False", "if self.software_manager.software.get('nmap') { if self.software_manager.software['nmap'].operating_state == ApplicationOperatingState.RUNNING { can_accept_nmap = True } }", "accept_nmap = can_accept_nmap and frame.payload.__class__.__name__ == 'PortScanPayload'", "accept_frame = False", "if frame.icmp or dst_port in self.software_manager.get_open_ports() or accept_nmap { accept_frame = True }", "if accept_frame { self.session_manager.receive_frame(frame, from_network_interface) } else { pass }"])] := by
+  ("HostNode.receive_frame", ["super().receive_frame(frame, from_network_interface)", "dst_port = None", "if frame.tcp { dst_port = frame.tcp.dst_port } else { if frame.udp { dst_port = frame.udp.dst_port } }", "can_accept_nmap = False", "if self.software_manager.software.get('nmap') { if self.software_manager.software['nmap'].operating_state == ApplicationOperatingState.RUNNING { can_accept_nmap = True } }", "accept_nmap = can_accept_nmap and frame.payload.__class__.__name__ == 'PortScanPayload'", "accept_frame = False", "if frame.icmp or dst_port in self.software_manager.get_open_ports() or accept_nmap { accept_frame = True }", "if accept_frame { self.session_manager.receive_frame(frame, from_network_interface) } else { pass }"]),
+  ("Router.check_send_frame_to_session_manager", ["dst_ip_address = frame.ip.dst_ip_address", "dst_port = None", "if frame.ip.protocol == PROTOCOL_LOOKUP['TCP'] { dst_port = frame.tcp.dst_port } else { if frame.ip.protocol == PROTOCOL_LOOKUP['UDP'] { dst_port = frame.udp.dst_port } }", "if self.ip_is_router_interface(dst_ip_address) and (frame.icmp or dst_port in self.software_manager.get_open_ports()) { return True }", "return False"])] := by
   rfl
 
 /-- well-known ports the end-to-end theorems use, the default capacity of `Conn`, and: no class overrides the connection
